@@ -852,7 +852,10 @@ async fn input_processing(
     let mut wire_shares_for_others = vec![vec![None; circ.max_reg_count]; p_max];
     for (w, inst) in circ.insts.iter().enumerate() {
         if let Op::Input(input @ Input { party, .. }) = inst.op {
-            let Share(bit, Auth(macs_and_keys)) = random_input_shares[w].clone();
+            let Share(bit, Auth(macs_and_keys)) = random_input_shares
+                .get(w)
+                .ok_or(MpcError::MissingPreprocessingShareForInst(w))?
+                .clone();
             let Some((mac, _)) = macs_and_keys.get(party as usize) else {
                 return Err(MpcError::MissingSharesForInput(input).into());
             };
@@ -873,7 +876,10 @@ async fn input_processing(
             let Some(input) = inputs.get(input as usize) else {
                 return Err(MpcError::InstWithoutInput(w).into());
             };
-            let Share(own_share, Auth(own_macs_and_keys)) = random_input_shares[w].clone();
+            let Share(own_share, Auth(own_macs_and_keys)) = random_input_shares
+                .get(w)
+                .ok_or(MpcError::MissingPreprocessingShareForInst(w))?
+                .clone();
             let mut masked_input = *input ^ own_share;
             #[cfg(feature = "__verif")]
             crate::verif::tap_bool("own_input", w, &mut masked_input);
